@@ -143,6 +143,33 @@ def gen_c03(env, tier, prop="C03", funcs=None):
                 env.run_xcube(prop, case, explicit=explicit)
 
 
+def gen_wide(env, tier, prop):
+    """extents around the 255/256 and 65535/65536 boundaries of the array cube's coordinate dtype, in either
+    dimension position, on both cubes (sparse cell report)"""
+    rnd, gen = env.rnd, env.gen
+    exts = [255, 256, 257, 300, 65535, 65536, 65537] if tier == "thorough" else [256, 257, 300, 65536, 65537]
+    for ext in exts:
+        for order in (0, 1):
+            for rep in range(1 if tier == "quick" else 4):
+                n = rnd.choice([4, 9])
+                wide = np.array([rnd.choice([0, 1, 255, 256, ext - 2, ext - 1]) % ext for _ in range(n)], dtype=np.int64)
+                small_ext = rnd.choice([1, 2, 3])
+                small = np.array([rnd.randrange(small_ext) for _ in range(n)], dtype=np.int64)
+                dims = [wide, small] if order == 0 else [small, wide]
+                ishape = (ext, small_ext) if order == 0 else (small_ext, ext)
+                func = rnd.choice(cb.SHARED)
+                fact = None if func == "count" else gen.fact(n, K=1)
+                case = cb.Case(dims, ishape, fact, gen.weights(n), rnd.random() < 0.5, rnd.choice([("nan",), ("tuple", 0)]), func)
+                env.run_xcube(prop, case, dtype=rnd.choice([np.int64, np.uint16, np.int32]))
+                env.run_ccube(prop, case)
+    # a single wide dimension
+    for ext in exts:
+        n = 6
+        wide = np.array([rnd.choice([0, 255, 256, ext - 1]) % ext for _ in range(n)], dtype=np.int64)
+        case = cb.Case([wide], (ext,), None, None, False, ("nan",), "count")
+        env.run_xcube(prop, case, dtype=np.int64)
+
+
 def gen_c04(env, tier):
     rnd, gen = env.rnd, env.gen
     n_cases = 700 if tier == "quick" else 12000
@@ -240,7 +267,7 @@ def stat_case(env, func, nd=None, extra=None, maxrows=8):
             # the property does not speak about: covariance is driven with positive weights only
             w["w"] = [x if x > 0 else Fraction(1) for x in w["w"]]
     if func == "wquantile":
-        w = {"kind": "array", "w": [Fraction(rnd.choice([1, 2, 3, Fraction(1, 2)])) for _ in range(n)],
+        w = {"kind": "array", "w": [Fraction(rnd.choice([1, 2, 3, Fraction(1, 2), 0])) for _ in range(n)],
              "valid": [rnd.random() > 0.15 for _ in range(n)], "form": rnd.choice(["nan", "tuple"])}
     fmt = rnd.choice([("nan",), ("tuple", 0), ("tuple", -1)])
     p = rnd.choice(cb.PROBS) if func in ("quantile", "wquantile") else None
@@ -309,7 +336,12 @@ def gen_c14(env, tier):
         env.rec.meta[ev["tid"]] = {"cube": "ccube.walk", "dims": [d.tolist() for d in dims], "commons": commons, "exc": exc}
 
 
-GENS = {"C02": gen_c02, "C03": gen_c03, "C04": gen_c04, "C05": gen_c05, "C13": gen_c13, "C14": gen_c14, "C18": gen_c18}
+def gen_c03_all(env, tier):
+    gen_c03(env, tier)
+    gen_wide(env, tier, "C03")
+
+
+GENS = {"C02": gen_c02, "C03": gen_c03_all, "C04": gen_c04, "C05": gen_c05, "C13": gen_c13, "C14": gen_c14, "C18": gen_c18}
 
 
 def judge(chk, rec, own):
@@ -393,7 +425,23 @@ def klass(ev, m):
     return ":" + ",".join(parts)
 
 
+def model_check(chk, tier, own):
+    """L1: walk recursion + regions + marginal differencing + counters = brute force, for every common per dimension"""
+    cfgs = ["MC_CCubeAlg_quick.cfg"]
+    if tier == "thorough":
+        cfgs.append("MC_CCubeAlg.cfg")
+        if own == "C02":
+            cfgs.append("MC_CCubeAlg_wide.cfg")
+    for cfg in cfgs:
+        res = core.run_tlc("CCubeAlg.tla", cfg, timeout=3000)
+        chk.add_tlc("L1 %s (CCubeAlg = brute force for every common)" % cfg, res)
+        if res.rc != 0:
+            chk.violation("L1:CCubeAlg:" + ",".join(res.violated), res.out[-2500:], {"leg": "L1", "cfg": cfg})
+
+
 def run_shared(chk, tier, own):
+    if own in ("C02", "C03", "C04", "C05", "C14"):
+        model_check(chk, tier, own)
     env = Env(core.SEED)
     GENS[own](env, tier)
     judge(chk, env.rec, own)
